@@ -16,7 +16,8 @@ namespace dsim {
 
 struct Config {
     int P, J, R, mode;               // ranks, jobs, rounds, mode 0 = master also works (mpi_skel), 1 = dedicated master
-    std::vector<int> order;          // job ids in the order handed to the master (permutation of 0..J-1)
+    std::vector<int> order;          // the J distinct job ids in the order handed to the master (any non-negative ids: the public
+                                     // MPIMaster(comm, task_numbers, ...) constructor accepts an arbitrary list, mpi_skel passes a permutation of 0..J-1)
 };
 
 struct Action { int kind, a, b; };   // kind 0: step rank a;  kind 1: deliver channel a->b
@@ -46,6 +47,7 @@ struct Sim {
         for (size_t r = 0; r < workers.size(); r++) { delete workers[r]; workers[r] = 0; }
         delete master; master = 0;
     }
+    bool requested(int job) const { for (size_t k = 0; k < cfg.order.size(); k++) if (cfg.order[k] == job) return true; return false; }
     bool participates(int rank) const { return cfg.mode == 0 || rank != 0; }
     void start_round() {
         workers.assign(cfg.P, (pMPI::MPIWorker*)0);
@@ -76,7 +78,7 @@ struct Sim {
         w.receive_order();
         if (w.is_working()) {
             int job = w.current_job();
-            if (job < 0 || job >= cfg.J) { std::ostringstream o; o << "rank " << r << " was told to run job " << job << " which does not exist"; fail(o.str()); }
+            if (!requested(job)) { std::ostringstream o; o << "rank " << r << " was told to run job " << job << " which does not exist"; fail(o.str()); }
             runlog.back().push_back(std::make_pair(r, job));
             w.report_job_done();
         }
@@ -107,18 +109,19 @@ struct Sim {
     }
     void end_round() {
         // every job exactly once on exactly one rank, and the dispatch map names that rank
-        std::vector<int> count(cfg.J, 0), who(cfg.J, -1);
+        std::map<int,int> count, who;
+        for (size_t k = 0; k < cfg.order.size(); k++) { count[cfg.order[k]] = 0; who[cfg.order[k]] = -1; }
         for (size_t k = 0; k < runlog.back().size(); k++) {
             int job = runlog.back()[k].second;
-            if (job >= 0 && job < cfg.J) { count[job]++; who[job] = runlog.back()[k].first; }
+            if (requested(job)) { count[job]++; who[job] = runlog.back()[k].first; }
         }
-        for (int j = 0; j < cfg.J; j++) {
+        for (size_t k = 0; k < cfg.order.size(); k++) { int j = cfg.order[k];
             if (count[j] != 1) { std::ostringstream o; o << "round " << round << ": job " << j << " was executed " << count[j] << " times"; fail(o.str()); }
         }
         if ((int)master->DispatchMap.size() != cfg.J) { std::ostringstream o; o << "round " << round << ": dispatch map has " << master->DispatchMap.size() << " entries for " << cfg.J << " jobs"; fail(o.str()); }
         for (std::map<pMPI::JobId, pMPI::WorkerId>::const_iterator it = master->DispatchMap.begin(); it != master->DispatchMap.end(); ++it) {
-            if (it->first < 0 || it->first >= cfg.J || who[it->first] != it->second) {
-                std::ostringstream o; o << "round " << round << ": dispatch map says job " << it->first << " ran on rank " << it->second << " but it ran on rank " << (it->first >= 0 && it->first < cfg.J ? who[it->first] : -1); fail(o.str());
+            if (!requested(it->first) || who[it->first] != it->second) {
+                std::ostringstream o; o << "round " << round << ": dispatch map says job " << it->first << " ran on rank " << it->second << " but it ran on rank " << (requested(it->first) ? who[it->first] : -1); fail(o.str());
             }
         }
         delete master; master = 0;
